@@ -27,6 +27,7 @@ type linProver struct {
 	raw    []*Term   // comparison literals between non-constant sides, turned into facts after bounds are known
 	rawPos []bool
 	edges  []diffEdge
+	inStride bool
 }
 
 type linForm struct {
@@ -75,6 +76,49 @@ func (p *linProver) nonneg(f linForm) bool {
 	}
 	if p.diffProve(f) {
 		return true
+	}
+	// common stride: f = g*f' + r with 0 <= r < g, so f' >= 0 implies f >= 0 (array indexing with element size g)
+	if !p.inStride && len(f.m) >= 1 {
+		var g int64
+		ok := true
+		for _, co := range f.m {
+			c := int64(co)
+			if c < 0 {
+				c = -c
+			}
+			if c <= 0 {
+				ok = false
+				break
+			}
+			if g == 0 {
+				g = c
+			} else {
+				for a, b := g, c; ; {
+					if b == 0 {
+						g = a
+						break
+					}
+					a, b = b, a%b
+				}
+			}
+		}
+		if ok && g > 1 && g <= 1<<20 {
+			k := int64(f.k)
+			q := k / g
+			if k%g != 0 && k < 0 {
+				q-- // floor division
+			}
+			h := linForm{m: map[*Term]uint64{}, k: uint64(q)}
+			for t, co := range f.m {
+				h.m[t] = uint64(int64(co) / g)
+			}
+			p.inStride = true
+			r := p.nonneg(h)
+			p.inStride = false
+			if r {
+				return true
+			}
+		}
 	}
 	// one fact scaled by a small positive factor (array indexing: elemsize*(len - i - 1) >= 0)
 	for a := range p.facts {
